@@ -207,7 +207,8 @@ def main(argv):
         for v in undec:
             for n, f in enumerate(fails):
                 fnname = (f.get('function') or '').split('.')[-1]
-                if fnname and fnname in v.name and n not in used_fail:
+                exact = any((g.get('function') or '').split('.')[-1] in u.name for g in fails for u in undec if g.get('function'))
+                if n not in used_fail and ((fnname and fnname in v.name) or not exact):
                     if match_known(prop, v.name): break
                     used_fail.add(n)
                     rp = os.path.join(VERIF, 'replays', prop, hashlib.sha1(v.name.encode()).hexdigest()[:12] + '.json')
